@@ -1,13 +1,14 @@
 /-
 M5 membership protocols (property C10).  Core Lean only.
 
-Go sources mirrored here (line numbers of the unchanged tree):
+Go sources mirrored here (line numbers of the current tree, i.e. after the repair of
+finding F8, commit 23681a3 "fix: break ties between equal cluster join times by instance id"):
 
 * `membership/membership.go`            `Model`, `Model.IsChanged` (l.22-34)
 * `couchbase/membership.go`             `cbMembership`: `register` (l.62-108), `createIndex`
                                         (l.110-114), `heartbeat` (l.130-147), `isAlive`
-                                        (l.149-157), `monitor` (l.160-243), `updateIndex`
-                                        (l.245-259), `rebalance` (l.261-289), `Close` (l.316-324)
+                                        (l.149-157), `monitor` (l.160-247), `updateIndex`
+                                        (l.249-263), `rebalance` (l.265-293), `Close` (l.320-328)
 * `servicediscovery/service_discovery.go` `StartHeartbeat` (l.113-155), `StartMonitor`
                                         (l.161-187), `GetAll` (l.193-213), `SetInfo` (l.215-228)
 * `servicediscovery/rpc_server.go`      `Handler.Rebalance` (l.53-59)
@@ -15,9 +16,15 @@ Go sources mirrored here (line numbers of the unchanged tree):
 * `membership/static_membership.go`, `membership/dynamic_membership.go`,
   `kubernetes/ha_membership.go`, `kubernetes/stateful_set_membership.go`
 
-Conventions: instance ids (uuid strings) and follower names are `Nat`s, only
-equality is used on them; join / heartbeat times are `Int` (`int64` UnixNano,
-wrap-around is not modelled).  A Go map is an association list plus an
+Conventions: instance ids (Go strings: the full document key
+`_connector:cbgo:<group>:instance:<uuid>`) and follower names are `Nat`s.  Equality is
+used on them everywhere; the ORDER of ids is used in exactly one place, the tie-break
+of the repaired `monitor` comparator, where Go compares the strings with `<` (bytewise
+lexicographic order).  The model uses `<` on `Nat` for it: the natural numbers stand for
+the id strings under any order embedding (strings ↦ their rank in lexicographic order);
+the theorems use only that this is a strict total order, so they hold for the string
+order as well.  Join / heartbeat times are `Int` (`int64` UnixNano, wrap-around is not
+modelled).  A Go map is an association list plus an
 explicit *iteration order* parameter wherever the code ranges over the map.
 -/
 namespace GoDcp.Membership
@@ -49,35 +56,64 @@ def setInfoRun {α : Type} [DecidableEq α] : Option (α × α) → List (α × 
 
 /-! ## (i) numbering by join order
 
-`monitor` l.178-185:
+`monitor` l.178-189 (current tree):
 
     ids := make([]string, 0, len(all))
     for k := range all { ids = append(ids, k) }          -- Go map iteration: ARBITRARY order
-    sort.SliceStable(ids, func(i, j int) bool { return all[ids[i]] < all[ids[j]] })
+    sort.SliceStable(ids, func(i, j int) bool {
+        if all[ids[i]] != all[ids[j]] { return all[ids[i]] < all[ids[j]] }
+        return ids[i] < ids[j]                           -- tie-break added by commit 23681a3
+    })
 
-The list handed to `sortJT` is the iteration order.  A stable sort with the
-strict comparison `<` = insertion of every element *before* the first element
-that is not smaller (elements with equal keys keep their iteration order). -/
+The list handed to the sort is the iteration order.  A stable sort with a strict
+comparison `less` = insertion of every element *before* the first element that
+is not `less` than it (elements that compare equal keep their iteration order).
+
+Before commit 23681a3 the comparator was `all[ids[i]] < all[ids[j]]` alone
+(`sortJT`, `rankNumberingPreFix`: finding F8, fixed).  `sortJT` is also the order
+`serviceDiscovery.GetAll` still uses (section iii). -/
 
 def insJT (x : Entry) : List Entry → List Entry
   | [] => [x]
   | y :: r => if y.2 < x.2 then y :: insJT x r else x :: y :: r
 
-/-- `sort.SliceStable` on join time -/
+/-- `sort.SliceStable` on join time only: the comparator of `monitor` BEFORE commit 23681a3,
+    and the key of `serviceDiscovery.GetAll` -/
 def sortJT : List Entry → List Entry
   | [] => []
   | x :: r => insJT x (sortJT r)
 
+/-- the comparator of `monitor` l.183-189 as it is now: join time, then id
+    (`if all[a] != all[b] { return all[a] < all[b] }; return a < b`; the ids are compared as Go
+    strings – `<` on `Nat` stands for that order, see the conventions at the top) -/
+def lessJTId (a b : Entry) : Bool :=
+  if a.2 ≠ b.2 then decide (a.2 < b.2) else decide (a.1 < b.1)
+
+def insJTId (x : Entry) : List Entry → List Entry
+  | [] => [x]
+  | y :: r => if lessJTId y x then y :: insJTId x r else x :: y :: r
+
+/-- `sort.SliceStable(ids, less)` with the repaired comparator `lessJTId` -/
+def sortJTId : List Entry → List Entry
+  | [] => []
+  | x :: r => insJTId x (sortJTId r)
+
 def ids (l : List Entry) : List Id := l.map Prod.fst
 
-/-- `rebalance` l.262-269: index of the first element whose ID is `self` (0-based) -/
+/-- `rebalance` l.266-273: index of the first element whose ID is `self` (0-based) -/
 def pos (self : Id) : List Id → Option Nat
   | [] => none
   | x :: r => if x = self then some 0 else (pos self r).map (· + 1)
 
 /-- (MemberNumber, TotalMembers) that `self` derives from the entries `init`
-    given in iteration order; `none` = `panic("cant find self in cluster")` -/
+    given in iteration order (the code as it is now: sorted by join time, then id);
+    `none` = `panic("cant find self in cluster")` -/
 def rankNumbering (init : List Entry) (self : Id) : Option (Nat × Nat) :=
+  (pos self (ids (sortJTId init))).map fun i => (i + 1, (sortJTId init).length)
+
+/-- the numbering BEFORE commit 23681a3 (stable sort on join time only): kept for the
+    refutation `rank_numbering_tie_refuted` (finding F8, fixed) -/
+def rankNumberingPreFix (init : List Entry) (self : Id) : Option (Nat × Nat) :=
   (pos self (ids (sortJT init))).map fun i => (i + 1, (sortJT init).length)
 
 /-! ## (ii) couchbase membership: the shared bucket and the member loops -/
@@ -100,8 +136,8 @@ def isAlive (c : Cfg) (now hb : Int) : Bool := decide (now - hb < c.hbInterval +
 /-- where a member's monitor goroutine stands -/
 inductive Pc
   | idle                                          -- sleeping between rounds (or about to retry)
-  | pending (filtered : List Entry) (cas : Nat)    -- l.230 reached with a change: before `updateIndex(…, data.Cas)`
-  | crashed                                       -- `panic(err)` in `rebalance` l.271-274: the process is gone
+  | pending (filtered : List Entry) (cas : Nat)    -- l.234 reached with a change: before `updateIndex(…, data.Cas)`
+  | crashed                                       -- `panic(err)` in `rebalance` l.275-278: the process is gone
   | stopped                                       -- `Close()`, process exit or partition: loops no longer act
 deriving DecidableEq, Repr
 
@@ -133,12 +169,12 @@ def upsert (e : Entry) : List Entry → List Entry
   | [] => [e]
   | y :: r => if y.1 = e.1 then e :: r else y :: upsert e r
 
-/-- `monitor` l.164-228: the index read in iteration order `iter`, sorted, every
+/-- `monitor` l.164-232: the index read in iteration order `iter`, sorted (join time, then id), every
     instance document fetched (`KeyNotFound` → skipped) and tested with
     `isAlive` at the observer's clock reading `nows id`; the surviving
     `Instance` values carry the document's own `clusterJoinTime` -/
 def view (c : Cfg) (docs : Id → Option InstDoc) (nows : Id → Int) (iter : List Entry) : List Entry :=
-  (sortJT iter).filterMap fun e =>
+  (sortJTId iter).filterMap fun e =>
     match docs e.1 with
     | none => none
     | some d => if isAlive c (nows e.1) d.hb then some (e.1, d.jt) else none
@@ -146,7 +182,7 @@ def view (c : Cfg) (docs : Id → Option InstDoc) (nows : Id → Int) (iter : Li
 /-- `isClusterChanged` l.116-128: different length or an id differs at some position -/
 def clusterChanged (last : List Id) (cur : List Entry) : Bool := decide (last ≠ ids cur)
 
-/-- `rebalance` l.261-289 -/
+/-- `rebalance` l.265-293 -/
 def rebalance (m : Id) (mb : Member) (f : List Entry) : Member :=
   match pos m (ids f) with
   | none => { mb with pc := .crashed }
@@ -157,7 +193,7 @@ def rebalance (m : Id) (mb : Member) (f : List Entry) : Member :=
     else
       { mb with last := ids f, pc := .idle, rounds := mb.rounds + 1 }
 
-/-- first half of a monitor round of member `m`: everything up to l.230.
+/-- first half of a monitor round of member `m`: everything up to l.234.
     Reading the index and the instance documents is one step: if the index is
     written in between, the CAS of the second half fails and the round has no
     effect, so nothing is lost by the merge.  No change → the round is over. -/
@@ -172,7 +208,7 @@ def readStep (c : Cfg) (s : State) (m : Id) (iter : List Entry) (nows : Id → I
       else s.setMem m { mb with rounds := mb.rounds + 1 }
     | _ => s
 
-/-- second half, l.231-241: `updateIndex(filtered, data.Cas)`; success → the
+/-- second half, l.235-245: `updateIndex(filtered, data.Cas)`; success → the
     index is replaced (join times taken from the instance documents) and
     `rebalance` runs; `ErrCasMismatch` → `h.monitor()` starts over -/
 def casStep (s : State) (m : Id) : State :=
@@ -206,7 +242,7 @@ def register2 (s : State) (m : Id) : State :=
   | none => s
   | some mb => s.setDoc m (some { hb := mb.jt, jt := mb.jt })
 
-/-- `Close()` l.316-324 (nothing is removed from the bucket), and likewise a
+/-- `Close()` l.320-328 (nothing is removed from the bucket), and likewise a
     killed or partitioned process -/
 def stopStep (s : State) (m : Id) : State :=
   match s.mem m with
